@@ -135,31 +135,26 @@ func (fr *Frame) guardMapAccess(m ssa.Value, write bool, pos token.Pos) {
 // function's contract as `makechan N assume P(ch)`; sound because the channel is fresh and
 // the ghost functions are otherwise unconstrained on it.
 func (fr *Frame) onMakeChan(i *ssa.MakeChan, ref Term) {
-	fc := fr.contr
+	// an auto-inlined helper is part of its caller: the caller's clauses count the make(chan)
+	// sites of the caller with the helpers' sites spliced in at their call sites
+	own := fr.anchorOwner()
+	fc := own.contr
 	if fc == nil {
-		fc = fr.vc.eng.contractOf(fr.fn)
+		fc = fr.vc.eng.contractOf(own.fn)
 	}
 	if fc == nil || len(fc.MakeChans) == 0 {
 		return
 	}
-	// ordinal of this MakeChan in source order
-	var sites []*ssa.MakeChan
-	for _, b := range fr.fn.Blocks {
-		for _, in := range b.Instrs {
-			if m, ok := in.(*ssa.MakeChan); ok {
-				sites = append(sites, m)
-			}
-		}
-	}
-	sort.Slice(sites, func(a, b int) bool { return sites[a].Pos() < sites[b].Pos() })
+	sites := fr.vc.eng.flatMakeChans(own.fn, 0)
 	ord := 0
 	for k, m := range sites {
 		if m == i {
 			ord = k + 1
+			break
 		}
 	}
 	for _, c := range fc.MakeChans[ord] {
-		env := fr.specEnvHere().bind("ch", &Val{T: ref, S: SInt, Typ: i.Type()})
+		env := own.specEnvAt(fr).bind("ch", &Val{T: ref, S: SInt, Typ: i.Type()})
 		t, err := fr.evalSpecAssume(c.Expr, env)
 		if err != nil {
 			fr.vc.specError(fr, c, err)
@@ -168,6 +163,35 @@ func (fr *Frame) onMakeChan(i *ssa.MakeChan, ref Term) {
 		fr.vc.assume(fr.reach, t)
 		fr.vc.globalsUsed = append(fr.vc.globalsUsed, "ghost definition at make(chan) in "+relFuncName(fr.fn)+": "+c.Text)
 	}
+}
+
+// flatMakeChans: the make(chan) sites of f in source order, with the sites of auto-inlined
+// helpers in place of the calls to them.
+func (e *Engine) flatMakeChans(f *ssa.Function, depth int) []*ssa.MakeChan {
+	var ins []ssa.Instruction
+	for _, b := range f.Blocks {
+		for _, in := range b.Instrs {
+			switch x := in.(type) {
+			case *ssa.MakeChan:
+				ins = append(ins, in)
+			case *ssa.Call:
+				if g := x.Call.StaticCallee(); g != nil && depth < 4 && g.Parent() == nil && e.contractOf(g) == nil && e.autoInline(g) {
+					ins = append(ins, in)
+				}
+			}
+		}
+	}
+	sort.SliceStable(ins, func(a, b int) bool { return ins[a].Pos() < ins[b].Pos() })
+	var out []*ssa.MakeChan
+	for _, in := range ins {
+		switch x := in.(type) {
+		case *ssa.MakeChan:
+			out = append(out, x)
+		case *ssa.Call:
+			out = append(out, e.flatMakeChans(x.Call.StaticCallee(), depth+1)...)
+		}
+	}
+	return out
 }
 
 // onAllocArray: `allocassume P(a)` of the executing function holds for every backing array it
